@@ -110,6 +110,16 @@ def enumerate_cases(tier: str):
                         yield {"version": version, "registry": registry, "fail_requests": [], "listen_mode": "fresh", "ops": [event, ["rx", first], ["rx", MISSING_KINDS[0]]]}
 
 
+    # the node of the episode is the gateway's own node 0 (its presentation doubles as a version report and may be refused AFTER registering it), or an
+    # ordinary node; the presentation carries every kind of version text; then it reports for a child it did not present, twice
+    for version in ("2.0", "2.1", "2.2", "1.5"):
+        for node in (0, 5, 254):
+            for ntype in (17, 18):
+                for text in ("", "abc", "2.x", "9.9", "0.1", "2.1", "1.4", "2.2.0", "v2.2", " 2.0", "2.0-beta"):
+                    for mode in ("fresh", "persistent"):
+                        yield {"version": version, "registry": {}, "fail_requests": [], "listen_mode": mode,
+                               "ops": [["rx", f"{node};1;1;0;0;1\n"], ["rx", f"{node};1;1;0;0;2\n"], ["rx", f"{node};255;0;0;{ntype};{text}\n"], ["rx", f"{node};1;1;0;0;3\n"], ["rx", f"{node};1;1;0;0;4\n"],
+                                       ["rx", f"{node};255;0;0;{ntype};2.1\n"], ["rx", f"{node};9;1;0;0;5\n"], ["rx", "6;9;1;0;0;1\n"]]}
     # every internal type with payload 0 / 1 (from the gateway, from a known node) BEFORE the first rejected message: nothing switches the requests off
     for version in ("2.0", "2.2", "1.5"):
         for mtype in [t for t in range(0, 35) if t not in (2, 3, 4)]:
